@@ -320,7 +320,10 @@ def make_model_image(shape, model, params_table, *, model_shape=None,
                                           mode=discretize_method,
                                           factor=discretize_oversample)
 
-            if i == 0 and isinstance(subimg, u.Quantity):
+            # attach the model units when the first source that overlaps
+            # the image is rendered (not necessarily the first table row)
+            if (isinstance(subimg, u.Quantity)
+                    and not isinstance(image, u.Quantity)):
                 image <<= subimg.unit
             try:
                 image[slc_lg] += subimg + local_bkg[i]
